@@ -1,45 +1,22 @@
 package c04
 
 import (
+	"fmt"
+	"strings"
 	"testing"
-	"time"
 )
 
-func TestBench(t *testing.T) {
-	t0 := time.Now()
-	h := newHarness()
-	t.Log("newHarness", time.Since(t0))
-	sc := buildScenarios(false)[0]
-	t.Log(sc.Name, len(sc.Ops))
-	t0 = time.Now()
-	n := 0
-	for i := 0; i < 3; i++ {
-		for _, op := range sc.Ops {
-			transition(h, sc, nil, op, "")
-			n++
+func TestSizes(t *testing.T) {
+	for _, th := range []bool{false, true} {
+		scs := buildScenarios(th)
+		by := map[string][2]int{}
+		for _, sc := range scs {
+			p := strings.SplitN(sc.Name, "/", 2)[0]
+			v := by[p]
+			v[0]++
+			v[1] += len(sc.Ops)
+			by[p] = v
 		}
+		fmt.Println("thorough:", th, "scenarios:", len(scs), by)
 	}
-	t.Log("per transition", time.Since(t0)/time.Duration(n))
-	t0 = time.Now()
-	for i := 0; i < 1000; i++ {
-		h.newWorld(sc.Kind, sc.Variant, sc.ChainKeys)
-	}
-	t.Log("newWorld", time.Since(t0)/1000)
-	w := h.newWorld(sc.Kind, sc.Variant, sc.ChainKeys)
-	t0 = time.Now()
-	for i := 0; i < 1000; i++ {
-		w.dump()
-	}
-	t.Log("dump", time.Since(t0)/1000)
-	t0 = time.Now()
-	for i := 0; i < 1000; i++ {
-		realDump(w)
-	}
-	t.Log("realDump", time.Since(t0)/1000)
-	m := newModelWorld(kindSpecs[sc.Kind], sc.Variant, sc.ChainKeys)
-	t0 = time.Now()
-	for i := 0; i < 1000; i++ {
-		modelDump(m)
-	}
-	t.Log("modelDump", time.Since(t0)/1000)
 }
